@@ -7,10 +7,11 @@ let opt_str = function A "_" -> None | x -> Some (str_of x)
 
 let pos_of l c : CssTok.pos = { CssTok.p_line = n_of_int (int_of l); CssTok.p_col = n_of_int (int_of c) }
 
-let num_of sign iv bits : CssTok.cnum =
+let num_of sign iv bits src : CssTok.cnum =
   { CssTok.n_sign = (int_of sign = 1);
     CssTok.n_int = (match iv with A "_" -> None | x -> Some (z_of_int (int_of x)));
-    CssTok.n_bits = n_of_int (int_of bits) }
+    CssTok.n_bits = n_of_int (int_of bits);
+    CssTok.n_src = src }
 
 let rec node_of (s : sexp) : CssTok.node =
   match s with
@@ -25,9 +26,9 @@ let rec node_of (s : sexp) : CssTok.node =
        | "s", [x] -> leaf (CssTok.TStr (str_of x))
        | "u", [x] -> leaf (CssTok.TUrl (str_of x))
        | "d", [x] -> leaf (CssTok.TDelim (n_of_int (int_of x)))
-       | "n", [sg; iv; b] -> leaf (CssTok.TNum (num_of sg iv b))
-       | "pc", [sg; iv; b] -> leaf (CssTok.TPct (num_of sg iv b))
-       | "dim", [sg; iv; b; u] -> leaf (CssTok.TDim (num_of sg iv b, str_of u))
+       | "n", [sg; iv; b; src] -> leaf (CssTok.TNum (num_of sg iv b (str_of src)))
+       | "pc", [sg; iv; b; src] -> leaf (CssTok.TPct (num_of sg iv b (str_of src)))
+       | "dim", [sg; iv; b; src; u] -> leaf (CssTok.TDim (num_of sg iv b (str_of src), str_of u))
        | "w", [x] -> leaf (CssTok.TWs (str_of x))
        | "c", [x] -> leaf (CssTok.TComment (str_of x))
        | "col", [] -> leaf CssTok.TColon
@@ -45,11 +46,11 @@ let rec node_of (s : sexp) : CssTok.node =
        | "cp", [] -> leaf CssTok.TCloseParen
        | "cs", [] -> leaf CssTok.TCloseSquare
        | "cc", [] -> leaf CssTok.TCloseCurly
-       | "F", name :: el :: ec :: body ->
-           CssTok.Block (CssTok.TFunc (str_of name), p, L.map node_of body, pos_of el ec)
-       | "P", el :: ec :: body -> CssTok.Block (CssTok.TParen, p, L.map node_of body, pos_of el ec)
-       | "S", el :: ec :: body -> CssTok.Block (CssTok.TSquare, p, L.map node_of body, pos_of el ec)
-       | "C", el :: ec :: body -> CssTok.Block (CssTok.TCurly, p, L.map node_of body, pos_of el ec)
+       | "F", name :: el :: ec :: cl :: body ->
+           CssTok.Block (CssTok.TFunc (str_of name), p, L.map node_of body, pos_of el ec, int_of cl = 1)
+       | "P", el :: ec :: cl :: body -> CssTok.Block (CssTok.TParen, p, L.map node_of body, pos_of el ec, int_of cl = 1)
+       | "S", el :: ec :: cl :: body -> CssTok.Block (CssTok.TSquare, p, L.map node_of body, pos_of el ec, int_of cl = 1)
+       | "C", el :: ec :: cl :: body -> CssTok.Block (CssTok.TCurly, p, L.map node_of body, pos_of el ec, int_of cl = 1)
        | _ -> failwith ("bad node " ^ k))
   | _ -> failwith "bad node"
 
@@ -77,7 +78,13 @@ let tok_s (t : CssTok.tok) : string =
   | CssTok.TDelim c -> "(d " ^ string_of_int (int_of_n c) ^ ")"
   | CssTok.TNum n -> "(n " ^ quote_str (CssTok.num_text n) ^ ")"
   | CssTok.TPct n -> "(pc " ^ quote_str (CssTok.pct_text n) ^ ")"
-  | CssTok.TDim (n, u) -> "(dim " ^ quote_str (CssTok.num_text n) ^ " " ^ quote_str u ^ ")"
+  | CssTok.TDim (n, u) ->
+      (* cssparser prints the units "E" / "E-..." with the escape \65 (= "e"); units are
+         case-insensitive, the canonical form follows the printed spelling *)
+      let u' = (match u with
+                | c :: rest when int_of_n c = 69 && (rest = [] || int_of_n (L.hd rest) = 45) -> n_of_int 101 :: rest
+                | _ -> u) in
+      "(dim " ^ quote_str (CssTok.num_text n) ^ " " ^ quote_str u' ^ ")"
   | CssTok.TWs _ -> "w"
   | CssTok.TComment s -> "(c " ^ quote_str s ^ ")"
   | CssTok.TColon -> "col"
@@ -118,21 +125,90 @@ let warn_s (w : Css.warning) : string =
 let out_sections (o : CssOut.ostate) : string list =
   [ toks_s (CssOut.o_tokens o); quote_str (CssOut.o_text o); map_s (CssOut.o_map o) ]
 
+(* consecutive whitespace tokens re-tokenise as one *)
+let rec collapse_ws (l : CssTok.tok list) : CssTok.tok list =
+  match l with
+  | (CssTok.TWs _ as a) :: CssTok.TWs _ :: r -> collapse_ws (a :: r)
+  | x :: r -> x :: collapse_ws r
+  | [] -> []
+
+(* canonical token list (as printed by the harness) -> tokens; numeric payloads are dummies
+   (CssSpec.conforms compares numeric tokens by kind and unit only) *)
+let dummy_num (text : BinNums.coq_N list) : CssTok.cnum =
+  { CssTok.n_sign = false; CssTok.n_int = None; CssTok.n_bits = n_of_int 0; CssTok.n_src = text }
+
+let tok_of_canon (s : sexp) : CssTok.tok =
+  match s with
+  | A "w" -> CssTok.TWs [n_of_int 32]
+  | A "col" -> CssTok.TColon | A "semi" -> CssTok.TSemi | A "com" -> CssTok.TComma
+  | A "inc" -> CssTok.TInclude | A "dash" -> CssTok.TDash | A "pre" -> CssTok.TPrefix
+  | A "suf" -> CssTok.TSuffix | A "sub" -> CssTok.TSubstr | A "cdo" -> CssTok.TCDO
+  | A "cdc" -> CssTok.TCDC | A "P" -> CssTok.TParen | A "S" -> CssTok.TSquare
+  | A "C" -> CssTok.TCurly | A "cp" -> CssTok.TCloseParen | A "cs" -> CssTok.TCloseSquare
+  | A "cc" -> CssTok.TCloseCurly
+  | Ls [A "i"; x] -> CssTok.TIdent (str_of x)
+  | Ls [A "at"; x] -> CssTok.TAt (str_of x)
+  | Ls [A "h"; x] -> CssTok.THash (str_of x)
+  | Ls [A "idh"; x] -> CssTok.TIdHash (str_of x)
+  | Ls [A "s"; x] -> CssTok.TStr (str_of x)
+  | Ls [A "u"; x] -> CssTok.TUrl (str_of x)
+  | Ls [A "d"; x] -> CssTok.TDelim (n_of_int (int_of x))
+  | Ls [A "n"; x] -> CssTok.TNum (dummy_num (str_of x))
+  | Ls [A "pc"; x] -> CssTok.TPct (dummy_num (str_of x))
+  | Ls [A "dim"; x; u] -> CssTok.TDim (dummy_num (str_of x), str_of u)
+  | Ls [A "c"; x] -> CssTok.TComment (str_of x)
+  | Ls [A "F"; x] -> CssTok.TFunc (str_of x)
+  | Ls [A "bu"; x] -> CssTok.TBadUrl (str_of x)
+  | Ls [A "bs"; x] -> CssTok.TBadStr (str_of x)
+  | _ -> failwith "bad canonical token"
+
+let toks_of_canon (s : string) : CssTok.tok list =
+  match parse_sexp s with
+  | Ls l -> L.map tok_of_canon l
+  | _ -> failwith "bad canonical token list"
+
+let etok_s (e : CssSpec.etok) : string =
+  (match e.CssSpec.e_gap with CssSpec.GFree -> "" | CssSpec.GReq -> "+" | CssSpec.GNo -> "!") ^ tok_s e.CssSpec.e_tok
+let etoks_s (l : CssSpec.etok list) : string = "(" ^ S.concat " " (L.map etok_s l) ^ ")"
+
+let b01 b = if b then "1" else "0"
+
 let () =
   register "css" (function
-    | opts :: tree :: _ ->
+    | opts :: tree :: rest ->
         let o = opts_of (parse_sexp opts) in
         let (nodes, endp) = tree_of (parse_sexp tree) in
         let st = Css.transform o nodes endp in
+        let sp = CssSpec.expected o nodes in
+        let wf = CssSpec.wf_tree o nodes in
+        let known = CssSpec.known o nodes in
+        let gn = collapse_ws (CssOut.o_tokens st.Css.w_normal) in
+        let gl = collapse_ws (CssOut.o_tokens st.Css.w_low) in
+        let conf_impl =
+          (match rest with
+           | _css :: _cat :: implN :: implL :: _ ->
+               (try [ b01 (CssSpec.conforms (toks_of_canon implN) sp.CssSpec.so_normal);
+                      b01 (CssSpec.conforms (toks_of_canon implL) sp.CssSpec.so_low) ]
+                with _ -> ["E"; "E"])
+           | _ -> ["-"; "-"]) in
         S.concat "\t"
-          (out_sections st.Css.w_normal @ out_sections st.Css.w_low @
-           [ "(" ^ S.concat " " (L.map warn_s (L.rev st.Css.w_warns)) ^ ")";
-             (if st.Css.w_oof then "OUT-OF-FUEL" else "ok") ])
+          ([ toks_s gn; quote_str (CssOut.o_text st.Css.w_normal); map_s (CssOut.o_map st.Css.w_normal);
+             toks_s gl; quote_str (CssOut.o_text st.Css.w_low); map_s (CssOut.o_map st.Css.w_low);
+             "(" ^ S.concat " " (L.map warn_s (L.rev st.Css.w_warns)) ^ ")";
+             (if st.Css.w_oof then "OUT-OF-FUEL" else "ok");
+             b01 wf;
+             "(" ^ S.concat " " (L.map (fun k -> string_of_int (int_of_n k)) known) ^ ")";
+             b01 (CssSpec.conforms gn sp.CssSpec.so_normal);
+             b01 (CssSpec.conforms gl sp.CssSpec.so_low) ]
+           @ conf_impl @
+           [ "(" ^ S.concat " " (L.map (fun k -> string_of_int (int_of_n k)) sp.CssSpec.so_warn) ^ ")";
+             "(" ^ S.concat " " (L.map quote_str sp.CssSpec.so_paths) ^ ")";
+             etoks_s sp.CssSpec.so_normal; etoks_s sp.CssSpec.so_low ])
     | _ -> "ERR args");
   (* css_num kind sign int bits -> printed text *)
   register "css_num" (function
     | [kind; sg; iv; bits] ->
-        let n = num_of (A sg) (A iv) (A bits) in
+        let n = num_of (A sg) (A iv) (A bits) [] in
         enc_str (match kind with
                  | "pc" -> CssTok.pct_text n
                  | _ -> CssTok.num_text n)
